@@ -4,7 +4,7 @@ import Rc.Model.Update
 
 requests
   re <attrs>                    the attribute section of an UPDATE without NLRI; the PDU is
-                                 `mkPdu [] attrs []` (at most 4096 octets, else bad-op)
+                                 `mkPdu [] attrs []` (at most 65535 octets, else bad-op)
   re2 <attrs> / re2w <attrs>    the same in a two-octet session; `re2w`: the section holds an attribute
                                  whose encoding depends on the AS number width (`hasWidthDependent`),
                                  `re2`: it holds none (otherwise bad-op)
@@ -41,7 +41,8 @@ width-dependent attribute -/
 def handleRe (two : Option Bool) (attrs : Bytes) : String :=
   let four := two.isNone
   let pdu := mkPdu [] attrs []
-  if pdu.length > 4096 then "bad-op" else
+  -- `UpdateMessage::from_octets` has no 4096-octet rule: accepted up to what the length field can say
+  if pdu.length > 65535 then "bad-op" else
   if (match two with | some w => hasWidthDependent attrs.length attrs != w | none => false) then "bad-op" else
   -- `UpdateMessage::from_octets`: the attributes are validated with `PduParseInfo::default()`
   -- whatever the session (update.rs:945), so acceptance does not depend on the width
